@@ -226,7 +226,8 @@ def run_case(ctx, case):
         # a square root taken at (numerically) zero: the compressed path cancels to rounding noise of the operands' scale, whose
         # square root is ~1e-8; compare the squares against the operands' scale, and take no gradient (sqrt is not differentiable at 0)
         S = 1.0 + sum(float((x.detach() ** 2).sum()) for x in dl)
-        if float(val) ** 2 > 1e-12 * S * S:
+        # (with a single-precision leaf the squares carry a relative error of ~1e-7, not ~1e-16: the floor of the square is 1e-5·S², cf. VT)
+        if float(val) ** 2 > (1e-5 if mixed else 1e-12) * S * S:
             ctx.oracle("values differ at a cancelling program: compressed %r dense %r" % (float(val), float(val2)), case)
         ctx.count("skipped:sqrt at 0"); return
     # the values are compared relative to the magnitude the head works with: a variance / squared norm / inner product is a difference of
